@@ -62,10 +62,10 @@ CHECKS = {
     "C17": dict(pkg="benchstat", tech="bounded-exhaustive enumeration of collections × settings against an exact-rational reference of the documented statistics; repeated-call differential", sec="3/C17",
                 text="All collections from the shape grammar × all settings are run through the real legacy library and compared with the reference.",
                 note="p-values use internal/stats (checked by C11/C12)."),
-    "C18": dict(pkg="benchseries", tech="exhaustive enumeration of all insertion orders (permutations) of result pools on the real Builder, canonical-dump comparison; lattice enumeration for bootstrap and dates", sec="3/C18",
-                text="Every permutation of each result pool is added to a fresh real Builder and the canonical dump of the comparison series must be identical and equal to the set-semantics reference.",
+    "C18": dict(pkg="benchseries", tech="exhaustive enumeration of all insertion orders (permutations) of result pools and of all add/ask histories up to a depth on the real Builder, canonical-dump comparison; deviation-bounded exhaustive exploration of map iteration orders on the mechanically instrumented real code; lattice enumeration for bootstrap and dates", sec="3/C18",
+                text="Every permutation of each result pool, every add/ask history up to the bound and every map iteration order up to the deviation bound is executed on the real Builder; the canonical dump of the comparison series (with bootstrap summaries) must be identical and equal to the set-semantics reference.",
                 note="Trusts the set-semantics reference."),
-    "C19": dict(pkg="storage/app", tech="explicit-state enumeration of upload histories × exhaustive query conjunctions against a reference store; exhaustive word-splitting strings", sec="3/C19",
+    "C19": dict(pkg="storage/app", tech="explicit-state enumeration of upload histories × exhaustive query conjunctions (all conjunctions up to 5 terms on one key) against a reference store; exhaustive word-splitting strings", sec="3/C19",
                 text="Every upload history up to the bound × every conjunction of query terms up to the bound is executed on the real DB/server and compared with a reference store.",
                 note="sqlite only; MySQL paths not exercised."),
     "C20": dict(pkg="storage/app", tech="exhaustive single-fault enumeration over every fault position of the upload path + exhaustive SQL-statement interleavings of concurrent uploads under a controlled scheduler + explicit-state ID histories", sec="3/C20",
